@@ -7,7 +7,12 @@
 (* conf (0 = "no opinion").  The limit that binds request k is             *)
 (*        Eff(S, conf_k) = IF conf_k > 0 THEN conf_k ELSE S                *)
 (* -- a function of THIS request's configuration only, never of the        *)
-(* requests served earlier on the connection.                              *)
+(* requests served earlier on the connection.  A server without a          *)
+(* configured limit (S = 0) is bound by the default limit, level DL = NL+1 *)
+(* (DefaultMaxRequestBodySize, 4 MiB).  Whether the request carries        *)
+(* "Expect: 100-continue" (and whether the client waits for the interim    *)
+(* response before sending the body) is a request attribute that no action *)
+(* reads: the limit applies on every path that reads a body.               *)
 (*                                                                         *)
 (* Limits are levels 1..NL (concretised to an increasing list of byte      *)
 (* counts R[1] < R[2] < ...).  A body size is <<level, plus>> = R[level] + *)
@@ -21,7 +26,8 @@ EXTENDS VerifLib
 CONSTANTS NL, Histories       \* Histories: set of [s, reqs] records
 
 Fits(size, lim) == size[1] < lim \/ (size[1] = lim /\ size[2] = 0)
-Eff(s, conf) == IF conf > 0 THEN conf ELSE s
+DL == NL + 1
+Eff(s, conf) == IF conf > 0 THEN conf ELSE IF s > 0 THEN s ELSE DL
 
 \* request: [conf, size, kind]; expected number of served requests of a history and whether
 \* the connection ends with a rejection
